@@ -151,6 +151,10 @@ def generate(rng, tier, idx):
             elif rng.random() < 0.08:
                 op['torn'] = round(rng.uniform(0.1, 0.9), 2)
         ops.append(op)
+        if rng.random() < 0.2:
+            # the ORIGINAL object is put to other use (refitted on other data, reseeded,
+            # sampled); a copy made earlier must go on behaving as the original did then
+            ops.append({'op': 'disturb_original', 'm': m, 'state': rng.randrange(2**31)})
     return {'population': pop, 'ops': ops, 'g0': rng.randrange(2**31)}
 
 
@@ -322,6 +326,9 @@ def execute(run):
             rec = models.get(op.get('m'))
             if rec is None:
                 continue
+            if op['op'] == 'disturb_original':
+                _disturb_original(ctx, rec, op)
+                continue
             kind, spec = rec['kind'], rec['spec']
             cls_short = zoo.short(spec['cls'])
             opts = ','.join(sorted(spec.get('ctor') or {})) or '-'
@@ -391,3 +398,38 @@ def execute(run):
             ctx.shape.append(st)
             ctx.event('hop', op['m'], op['via'], 'ok')
     return ctx.result()
+
+
+def _disturb_original(ctx, rec, op):
+    """Refit / reseed / sample the original object, then require every copy made from it so
+    far (the current one) to behave as before: a copy that shares mutable state with its
+    source is not a copy."""
+    if not rec['fitted'] or rec['cur'] is rec['orig'] or not rec['hops']:
+        return
+    kind, spec = rec['kind'], rec['spec']
+    d2 = dict(spec['data'])
+    d2['seed'] = (d2.get('seed', 1) * 31 + 7) % (2**31)
+    if d2.get('kind') == 'uni':
+        d2['loc'] = d2.get('loc', 0.0) + 3.0
+        d2['gen'] = 'gamma' if d2.get('gen') != 'gamma' else 'normal'
+    if d2.get('kind') == 'pobs':
+        d2['tau'] = 0.2 if abs(d2.get('tau', 0.5)) > 0.3 else 0.6
+    if d2.get('kind') == 'table':
+        d2['pattern'] = 'neg' if d2.get('pattern') != 'neg' else 'chain'
+    data2 = zoo.gen_data(d2)
+    with sterile(op['state']):
+        outcome(rec['orig'].set_random_state, 99)
+        outcome(lambda: rec['orig'].sample(3))
+        outcome(zoo.fit_model, rec['orig'], spec, data2)
+    ctx.probes['original_disturbed_after_copy'] += 1
+    b = obs.observe(rec['cur'], kind, rec['data'])
+    keys = [k for k in obs.diff(rec['obs0'], b) if k not in ('class', 'selected')]
+    ctx.stats['twin_comparisons'] += 1
+    if keys:
+        ctx.violate('copy_independent_of_original', spec['cls'] + '.from_dict',
+                    'after the original was refitted the copy made by %s changed in %s'
+                    % ('>'.join(rec['hops']), keys), cls=zoo.short(spec['cls']),
+                    via=rec['hops'][-1], differs=keys)
+    # the original is now another model: later hops start from the current copy only
+    rec['orig'] = rec['cur']
+    ctx.event('disturb_original', keys)
